@@ -6,7 +6,7 @@ LEVEL = "model_checking"
 MANIFEST = {
     "engine": "tlc SharedFilePool + vh c24 (hooks, gated scheduler) + tlc TraceSFP / TraceSFPConf",
     "technique": "TLC checks HeldOpen / RefCount / OpenBound / LruWF (and idle-close liveness without a pool) exhaustively on the mutex-section-level TLA+ model SharedFilePool; the real SharedFile and Pool objects are then driven through seeded schedules of their hook yield points, every hook emission is logged with direct observations of the fake descriptors, and TLC validates the logs: observed invariants (verdict) and conformance of the event sequence to the model (drift)",
-    "text": "Model: 3 files x 2 threads x capacity 1 x up to 4 (quick) / 6 (thorough) API calls, every interleaving of the critical sections; implementation: 160 (quick) / 2400 (thorough) gated runs over 4 configurations (pool capacity 1 and 2, 2-3 goroutines, pool-less grace timer) whose traces TLC checks step by step.",
+    "text": "Model: 3 files x 2 threads x capacity 1 x up to 4 (quick) / 6 (thorough) API calls, every interleaving of the critical sections; implementation: 400 (quick) / 6000 (thorough) gated runs over 6 configurations (pool capacity 1 and 2, 2-3 goroutines, pool-less grace timer, two eviction-churn configurations in which the unlocked eviction window - before and after the victim's ReleaseNow - is held open while the other goroutines run) whose traces TLC checks step by step.",
     "note": "Hooks (build tag verif) emit state under the protecting mutex; the fake ReadAtCloser records Close so 'closed under a reader' is observed directly; evictions in flight are allowed as transient excess over capacity; the pool-less timer runs in real time (300us grace).",
 }
 
